@@ -27,7 +27,8 @@
      declarations only, pairwise runs   std, std_flavor (std, pmr), variable_array_type_include/_template (std::vector and a harness stub container),
                                         allocator_include/_type, allocator_is_default_constructible (true only)
      declarations only, not exercised   variable_array_type_constructor_args; cetl++14-17 / allocator_is_default_constructible = false (no CETL headers offline).
-   DOMAIN of the assertion statements: override off or without a capacity macro (`c03_assertion_domain`); see audit3 D3.
+   DOMAIN of the assertion statements: override off or without a capacity macro (`c03_assertion_domain`); the reduced-capacity
+   configuration (audit3 D3, fixed in /repo f2f61d1) is covered by Properties/C04.v `c04_asserts_option`.
    Superseded first-round statements: History/C03_history.v. *)
 From Verif Require Import Wire WireThm WireThmRt WireThmExt WireThmValid F16 TargetsC03 TargetPreThm WireThmC03.
 From Verif Require Import Walker RefineSerBits ObsC03 ObsC03Thm ObsC03Tie.
@@ -58,10 +59,12 @@ Print Assumptions c03_des_asserts_never_fire.
 
 (* DOMAIN of the two statements above and of every observable of this file (audit3 D3): the observables are built on
    WalkerSafe.std_cfg - the up-front capacity test of _serialize_impl is compiled in and no array capacity is overridden, i.e.
-   enable_override_variable_array_capacity is OFF, or on without any -D..._ARRAY_CAPACITY_ macro.  With a REDUCED capacity macro the
-   up-front test is compiled out and the inner assertion of _serialize_any aborts on a valid call (real defect D3, C04's subject):
-   that configuration is outside C03's statements.  Inside the domain the inner assertion never fires either (C04's
-   WalkerSafeThm.ser_asserts_never_fire_checked, instantiated with the configuration the C03 observables use). *)
+   enable_override_variable_array_capacity is OFF, or on without any -D..._ARRAY_CAPACITY_ macro (the only way this check builds it).
+   Inside that domain the inner assertion of _serialize_any never fires either (C04's WalkerSafeThm.ser_asserts_never_fire_checked,
+   instantiated with the configuration the C03 observables use).  OUTSIDE the domain (override + asserts + a REDUCED capacity macro) the
+   pre-f2f61d1 tree aborted on a valid call (defect D3, History/C04_history.override_assert_refuted); since /repo f2f61d1 that assertion
+   is not emitted under the override option and Properties/C04.v `c04_asserts_option` proves it cannot fire for ANY option combination -
+   that configuration remains C04's subject, C03 states nothing about it. *)
 Theorem c03_assertion_domain : forall l,
   WalkerSafe.up_front (WalkerSafe.std_cfg l) = true /\ (forall e n, WalkerSafe.ov (WalkerSafe.std_cfg l) e n = n) /\
   WalkerSafe.little (WalkerSafe.std_cfg l) = l.
